@@ -4,7 +4,18 @@ From Coq Require Import String.
 From TlsModel Require Import GenBase Wire Show.
 Open Scope gen_scope.
 
-Definition grandom32 : G slice := gslice 32.
+(* 32-byte randoms: mostly arbitrary, but also the values that protocol code singles out (RFC 8446 4.1.3): the
+   HelloRetryRequest magic random, the two downgrade sentinels in the last eight bytes, all-zero, all-ones *)
+Definition hrr_magic : list byte := map n2b [207; 33; 173; 116; 229; 154; 97; 17; 190; 29; 140; 2; 30; 101; 184; 145; 194; 162; 17; 22; 122; 187; 140; 94; 7; 158; 9; 226; 200; 168; 51; 156].
+Definition downgrade_sentinel (last : N) : list byte := map n2b [68; 79; 87; 78; 71; 82; 68; last].
+Definition grandom32 : G slice :=
+  freq (gslice 32)
+    [ (10, gslice 32);
+      (2, gret (mkS 0 hrr_magic));
+      (1, do b <- gbytes 24; do l <- rnd 2; gret (mkS 0 (b ++ downgrade_sentinel l)));
+      (1, do k <- rnd 32; do b <- gbytes 1; gret (mkS 0 (firstn (N.to_nat k) hrr_magic ++ b ++ skipn (S (N.to_nat k)) hrr_magic)));
+      (1, gret (mkS 0 (repeat (n2b 0) 32)));
+      (1, gret (mkS 0 (repeat (n2b 255) 32))) ].
 Definition gsid : G (option slice) :=
   freq (gret None) [ (3, gret None); (1, do s <- gslice 1; gret (Some s)); (2, do s <- gslice 32; gret (Some s));
                      (2, do n <- rnd 32; do s <- gslice (n + 1); gret (Some s)) ].
